@@ -908,10 +908,15 @@ func MapOrder[K comparable, V any](m map[K]V) []K {
 			s = &sched{c: c}
 		}
 	}
-	if s == nil || len(keys) < 2 {
+	if len(keys) < 2 {
 		return keys
 	}
 	sort.Slice(keys, func(i, j int) bool { return fmt.Sprint(keys[i]) < fmt.Sprint(keys[j]) })
+	if s == nil {
+		// nobody owns the order: still never Go's random one, or a harness that
+		// does not enumerate it would not be reproducible
+		return keys
+	}
 	if len(keys) <= 4 {
 		out := make([]K, 0, len(keys))
 		rest := keys
